@@ -61,6 +61,28 @@ pub(crate) fn append_trailing_comment_suffix(
     docs.push(ir::line_suffix(suffix));
 }
 
+/// For statements printed verbatim from the source (`break`, `goto l`, `;`, …): the block renderer
+/// leaves the comment trailing them on the same line to the statement, so it has to be printed here.
+/// Comments inside the node are already part of the verbatim text.
+pub(crate) fn append_following_comment_suffix(
+    ctx: &FormatContext,
+    plan: &FormatPlan,
+    docs: &mut Vec<DocIR>,
+    node: &LuaSyntaxNode,
+) {
+    let Some(comment) = find_following_inline_comment_node(node).and_then(LuaComment::cast) else {
+        return;
+    };
+    if comment.syntax().text().contains_char('\n') {
+        return;
+    }
+
+    let padding = ctx.config.comments.line_comment_min_spaces_before.max(1);
+    let mut suffix = (0..padding).map(|_| ir::space()).collect::<Vec<_>>();
+    suffix.extend(render_comment_with_spacing(ctx, &comment, plan));
+    docs.push(ir::line_suffix(suffix));
+}
+
 pub(crate) fn append_trailing_statement_suffix(
     ctx: &FormatContext,
     plan: &FormatPlan,
@@ -150,6 +172,11 @@ fn find_inline_trailing_comment_node(node: &LuaSyntaxNode) -> Option<LuaSyntaxNo
         }
     }
 
+    find_following_inline_comment_node(node)
+}
+
+/// The comment that follows `node` on the same line (as a sibling, not a child).
+fn find_following_inline_comment_node(node: &LuaSyntaxNode) -> Option<LuaSyntaxNode> {
     let mut next = node.next_sibling_or_token();
     for _ in 0..4 {
         let sibling = next.as_ref()?;
@@ -174,6 +201,10 @@ fn has_non_trivia_after_in_node(node: &LuaSyntaxNode) -> bool {
                 next = element.next_sibling_or_token();
             }
             LuaKind::Syntax(LuaSyntaxKind::Comment) => {
+                next = element.next_sibling_or_token();
+            }
+            // `f() -- c` followed by the statement's own `;` on the next line: still trailing
+            LuaKind::Token(LuaTokenKind::TkSemicolon) => {
                 next = element.next_sibling_or_token();
             }
             _ => return true,
